@@ -834,7 +834,7 @@ def overflow_drain(ctx, facts):
     list is drained may depend on nothing but the cursor and the ring size - in particular not on whether somebody
     happened to sit in the ring slot; (b) the positions at which it is drained must hit every run of len + 1 consecutive
     cursor values; (c) a drain wakes every parked waker."""
-    from rules.C13 import ieval, NoEval
+    from rules.C13 import ieval, NoEval, guard_holds
     ctx.rule("OVERFLOW-drain: in OperatingState::wake_next every switch that can steer around the drain of overflow_wakers is an arithmetic test of next and wakers.len(); evaluated for len = 2..9 the drained cursor positions meet every interval [i - len, i]; the drain takes the whole list and wakes every element (loop left only when the iterator is exhausted)")
     b = facts.bodies.get("helpers::buffers::unordered_receiver::OperatingState::<S, C>::wake_next")
     if b is None:
@@ -861,7 +861,7 @@ def overflow_drain(ctx, facts):
         if not away:
             continue
         toward = [x for x in live if x in reach_D]
-        fs = [f for x in toward for f in guards.get(x, []) if f[0] in OPS]
+        fs = [f for x in toward for f in guards.get(x, []) if f[0] in OPS or (f[0] in ("true", "false") and f[1][0] == "call" and re.search(r"::(is_multiple_of|is_power_of_two)$", f[1][1]))]
         if len(toward) == 1 and fs:
             gates.append((s, fs[0]))
         elif len(toward) == 1 and any(f[0] == "false" and re.search(r"::is_empty$", str(f[1][1])) and "overflow_wakers" in str(f[1]) for f in guards.get(toward[0], []) if f[1][0] == "call"):
@@ -882,7 +882,7 @@ def overflow_drain(ctx, facts):
                 drained = set()
                 for m in range(1, 6 * ln + 8):
                     env = {NEXT: m, LEN: ln}
-                    if all(OPS[op](ieval(l, env), ieval(r, env)) for s, (op, l, r) in gates):
+                    if all(guard_holds(g, env) for s, g in gates):
                         drained.add(m)
                 for i in range(ln + 2, 5 * ln + 6):
                     if not any(m in drained for m in range(max(1, i - ln), i + 1)):
